@@ -24,6 +24,16 @@ class Boom(Exception):
     pass
 
 
+class FalsyBoom(Boom):
+    """an exception whose truth value is False (an error type carrying a possibly empty list of failed items): still an exception to deliver"""
+
+    def __bool__(self):
+        return False
+
+    def __len__(self):
+        return 0
+
+
 #: operator -> (file, expression over `ops`, `rx`, the callbacks cb0.., `inner` (an observable), callback result kinds)
 #: result kinds: v (any value), b (bool), k (key), o (observable), i (int comparer), l (list/iterable)
 TABLE = {
@@ -98,13 +108,13 @@ def raw_source():
     return Raw()
 
 
-def make_cb(kind, k, calls, closers):
+def make_cb(kind, k, calls, closers, falsy=False):
     import reactivex as rx
 
     def cb(*a):
         calls.append(a)
         if len(calls) == k:
-            raise Boom(f"callback call #{k}")
+            raise (FalsyBoom if falsy else Boom)(f"callback call #{k}")
         if kind in ("b",):
             return True
         if kind == "bf":
@@ -127,7 +137,7 @@ def make_cb(kind, k, calls, closers):
     return cb
 
 
-def run_case(name, k):
+def run_case(name, k, falsy=False):
     """-> None or a description of what went wrong"""
     import reactivex as rx
     from reactivex import operators as ops
@@ -135,7 +145,7 @@ def run_case(name, k):
     if kind is None:
         return None
     calls, closers = [], []
-    cb = make_cb(kind, k, calls, closers)
+    cb = make_cb(kind, k, calls, closers, falsy)
     src, opener = raw_source(), raw_source()
     env = {"ops": ops, "rx": rx, "cb0": cb, "opener": opener}
     got = {"next": [], "error": [], "completed": 0}
@@ -173,11 +183,12 @@ def run_case(name, k):
     if len(calls) < k:
         return None  # the callback was not invoked k times on this input
     if escaped:
-        return {"what": "the callback's exception escaped into the emitter", "escaped": escaped[0], "operator": expr, "k": k}
+        return {"what": "the callback's exception escaped into the emitter", "escaped": escaped[0], "operator": expr, "k": k, "falsy_exception": falsy}
     if name == "do_action":
         pass
     if not (got["error"] and isinstance(got["error"][0], Boom)):
-        return {"what": "the subscriber did not receive the callback's exception as on_error", "received": repr(got)[:200], "operator": expr, "k": k}
+        return {"what": "the subscriber did not receive the callback's exception as on_error" + (" (the exception object is falsy: bool(e) is False)" if falsy else ""),
+                "received": repr(got)[:200], "operator": expr, "k": k, "falsy_exception": falsy}
     return None
 
 
@@ -196,7 +207,7 @@ sys.exit(r.returncode)
 def main(argv):
     if argv[0] == "case":
         c = json.loads(argv[1])
-        r = run_case(c["name"], c["k"])
+        r = run_case(c["name"], c["k"], c.get("falsy", False))
         print(json.dumps({"violation": r}, default=repr))
         sys.exit(1 if r else 0)
     target = argv[2]
@@ -208,11 +219,11 @@ def main(argv):
     names.sort(key=lambda n: 0 if TABLE[n][0] in oid or TABLE[n][0] in target else 1)
     only_file = [n for n in names if TABLE[n][0] in oid or TABLE[n][0] in target]
     for n in (only_file or names):
-        for k in (1, 2, 3):
+        for k, falsy in ((1, False), (2, False), (3, False), (1, True), (2, True)):
             cases += 1
-            r = run_case(n, k)
+            r = run_case(n, k, falsy)
             if r:
-                found = {"case": {"name": n, "k": k}, "disagreement": r}
+                found = {"case": {"name": n, "k": k, "falsy": falsy}, "disagreement": r}
                 break
         if found:
             break
